@@ -24,7 +24,12 @@ FLAVOURS = {
     "O0":   ("gcc", ["-O0", "-g"], []),
     "asan": ("gcc", ["-O1", "-g", "-fsanitize=address", "--param", "asan-stack=0", "-fno-omit-frame-pointer"],
              ["-fsanitize=address"]),
+    # library objects additionally compiled with -finstrument-functions: every function entry/exit of the
+    # library (inlined ones included) becomes a schedule point, so windows that contain no explicit hook
+    # (e.g. code added by a change) are interleaved too
+    "fn":   ("gcc", ["-O1", "-g"], []),
 }
+LIB_EXTRA = {"fn": ["-finstrument-functions"]}
 
 def _files(dirpath, exts):
     out = []
@@ -38,6 +43,7 @@ def _files(dirpath, exts):
 def source_hash(flavour):
     h = hashlib.sha1()
     h.update(repr(FLAVOURS[flavour]).encode())
+    h.update(repr(LIB_EXTRA.get(flavour)).encode())
     paths = (_files(os.path.join(REPO, "src"), (".c", ".h", ".cc", ".opts")) + _files(os.path.join(REPO, "include"), (".h",))
              + _files(os.path.join(VERIF, "sim"), (".c", ".h", ".S")) + _files(os.path.join(VERIF, "harness"), (".c", ".h", ".cc", ".S"))
              + [os.path.abspath(__file__)])
@@ -87,7 +93,7 @@ def build(flavour="O2", quiet=True):
         for s in COMMON_SRCS:
             o = os.path.join(bdir, "lib_" + s[:-2] + ".o")
             objs.append(o)
-            jobs.append([cc] + oflags + cpp + ["-c", os.path.join(REPO, "src", s), "-o", o])
+            jobs.append([cc] + oflags + LIB_EXTRA.get(flavour, []) + cpp + ["-c", os.path.join(REPO, "src", s), "-o", o])
         # runtime
         for s, extra in (("mvsim.c", []), ("mvsim_switch.S", [])):
             o = os.path.join(bdir, "sim_" + s.rsplit(".", 1)[0] + ".o")
@@ -155,7 +161,7 @@ def build(flavour="O2", quiet=True):
             for s in COMMON_SRCS + WRAP_SRCS:
                 o = os.path.join(bdir, "ld_" + s[:-2] + ".o")
                 lobjs.append(o)
-                ljobs.append([cc] + oflags + cpp_ld + ["-c", os.path.join(REPO, "src", s), "-o", o])
+                ljobs.append([cc] + oflags + LIB_EXTRA.get(flavour, []) + cpp_ld + ["-c", os.path.join(REPO, "src", s), "-o", o])
             o = os.path.join(bdir, "ld_mvsim_lib.o")
             lobjs.append(o)
             ljobs.append([cc] + oflags + cpp_ld + ["-c", os.path.join(VERIF, "sim", "mvsim_lib.c"), "-o", o])
